@@ -34,7 +34,7 @@ ANCHORS = [
     "acnportal.acnsim.interface:Interface.remaining_amp_periods",
     "acnportal.algorithms.base_algorithm:BaseAlgorithm.run",
 ]
-REQUIRED = ["schedulers_attached_with_update_scheduler", "runs_resumed_after_a_scheduler_exception", "deep_copied_algorithm_and_simulator_runs", "interface_queried_at_registration", "invocations_judged", "invocations_without_event", "runs_judged", "mutating_twins", "active_sets_judged",
+REQUIRED = ["schedulers_swapped_mid_run_after_an_exception", "schedulers_attached_with_update_scheduler", "runs_resumed_after_a_scheduler_exception", "deep_copied_algorithm_and_simulator_runs", "interface_queried_at_registration", "invocations_judged", "invocations_without_event", "runs_judged", "mutating_twins", "active_sets_judged",
             "sessions_filtered_as_satisfied", "pilot_queries_judged", "infrastructure_judged", "regime:mr-None", "regime:mr-1",
             "regime:mr-k", "inner:scripted", "inner:uncontrolled", "inner:sorted"]
 BUDGET_S = {"quick": 240, "thorough": 3000}
@@ -56,6 +56,9 @@ def cases(seed, tier):
                     "fault_at": rng.choice([0, 1, 2, 3, 5]) if rng.random() < 0.25 else None})
         if rng.random() < 0.15 and not out[-1]["copy_pair"]:
             d["swap_from"] = {"mr": rng.choice([1, 2, 3, 7, None]), "json": rng.random() < 0.4}
+    for i in range(n // 8):
+        d = gen.scenario(rng, sched="scripted", noise_p=0.0, mr=rng.choice([2, 3, 4, 5, 7, None, 1]), recompute_p=0.2)
+        out.append({"desc": d, "swap_mid": {"at": rng.choice([1, 2, 2, 3, 4]), "mr2": rng.choice([1, 2, 3, 5, None]), "json": rng.random() < 0.35}})
     return out
 
 
@@ -246,7 +249,78 @@ def _net_description(net):
                 cont=list(map(bool, net.is_continuous)))
 
 
+def _run_swap_mid(case, obs):
+    """Scheduler A (interval mrA) raises at its j-th invocation; the caller attaches scheduler B (another interval) with
+    update_scheduler(), optionally after a JSON round trip, and calls run() again. Completed invocations of A and of B must be
+    exactly what the rule gives: an event in the period (still to be resolved), or B's interval elapsed since the last completed
+    invocation of either."""
+    import warnings as _w
+    from acnportal.acnsim import Simulator
+    from acnportal.algorithms import BaseAlgorithm
+    d = case["desc"]
+    sd, netd = d["scheduler"], d["network"]
+    sw = case["swap_mid"]
+    logs = {"A": [], "B": []}
+    st_ = {"fired": False, "t": None}
+
+    class S(BaseAlgorithm):
+        def __init__(self, mr, name, fail_at):
+            super().__init__()
+            self.max_recompute, self.name, self.fail_at = mr, name, fail_at
+
+        def schedule(self, active_sessions):
+            t = self.interface.current_time
+            if self.fail_at is not None and not st_["fired"] and len(logs[self.name]) == self.fail_at:
+                st_["fired"], st_["t"] = True, t
+                raise InjectedFault(f"period {t}")
+            logs[self.name].append(t)
+            return gen.scripted_schedule(sd, netd, t)[0]
+
+    mrA, mrB = sd.get("mr"), sw["mr2"]
+    sim, evs = build.build_sim(d, scheduler=S(mrA, "A", sw["at"]))
+    wit = dict(scenario=d, swap_mid=sw)
+    with _w.catch_warnings():
+        _w.simplefilter("ignore")
+        try:
+            sim.run()
+        except InjectedFault:
+            pass
+        except Exception as e:
+            obs.violate("run_raised", f"{type(e).__name__}: {e}", **wit)
+            return
+        if not st_["fired"]:
+            obs.ev("swap_mid_fault_never_reached_not_judged")
+            return
+        tf = st_["t"]
+        if sw.get("json"):
+            sim = Simulator.from_json(sim.to_json())
+        sim.update_scheduler(S(mrB, "B", None))
+        try:
+            sim.run()
+        except Exception as e:
+            obs.violate("run_raised", f"after update_scheduler at period {tf}: {type(e).__name__}: {e}", **wit)
+            return
+    obs.ev("schedulers_swapped_mid_run_after_an_exception")
+    T = sim.iteration
+    evt = simrun.event_times(d)
+    expA, expB, last = [], [], None
+    for t in range(T):
+        mr = mrA if t < tf else mrB
+        if t in evt or (mr is not None and (last is None or t - last >= mr)) or (t == tf and mrA is not None and (last is None or t - last >= mrA) and False):
+            (expA if t < tf else expB).append(t)
+            last = t
+    obs.evals = len(expA) + len(expB)
+    if logs["A"] != expA or logs["B"] != expB:
+        obs.violate("invocation_periods", f"A (interval {mrA}) ran in {logs['A']}, raised in period {tf}; B (interval {mrB}) attached with "
+                    f"update_scheduler ran in {logs['B']}; required A {expA}, B {expB}; events in {sorted(evt)}", **wit)
+    if len(expB) >= 2:
+        obs.nontrivial()
+    obs.sample = {"kind": "swap_mid", "mrA": mrA, "mrB": mrB, "fault_period": tf, "A": logs["A"], "B": logs["B"][:12]}
+
+
 def run_case(case, obs):
+    if case.get("swap_mid"):
+        return _run_swap_mid(case, obs)
     d = case["desc"]
     nd = d["network"]
     fbox = {}
